@@ -73,6 +73,15 @@ func (b *Batch) Run() int {
 	if b.MinimiseBudget == 0 {
 		b.MinimiseBudget = 90 * time.Second
 	}
+	// VERIF_FASTFAIL (sensitivity testing only, see bin/mutate.sh): stop at the
+	// first violation that is not a known finding, report one, spend little on
+	// minimisation, write no evidence.
+	fastfail := os.Getenv("VERIF_FASTFAIL") != ""
+	var ffFindings []*Finding
+	if fastfail {
+		b.MaxReports, b.MinimiseBudget, b.NoEvidence = 1, 20*time.Second, true
+		ffFindings = LoadFindings()
+	}
 	fmt.Printf("verif: property=%s tier=%s VERIF_SEED=%d\n", b.Property, b.Tier, b.Seed)
 	start := time.Now()
 	var mu sync.Mutex
@@ -92,6 +101,9 @@ func (b *Batch) Run() int {
 		}
 		if chunk > 2048 {
 			chunk = 2048
+		}
+		if fastfail && chunk > 96 {
+			chunk = 96
 		}
 		base := next
 		Pool(b.Workers, chunk, func(k int) {
@@ -116,7 +128,9 @@ func (b *Batch) Run() int {
 				infra++
 			}
 			if class != "" && len(founds) < 64 {
-				founds = append(founds, found{c, o, class, false})
+				if !fastfail || MatchFinding(ffFindings, b.Property, c, class) == nil {
+					founds = append(founds, found{c, o, class, false})
+				}
 			}
 			if b.GroupKey != nil {
 				key := b.GroupKey(i)
@@ -129,7 +143,7 @@ func (b *Batch) Run() int {
 		mu.Lock()
 		nf := len(founds)
 		mu.Unlock()
-		if nf >= 16 {
+		if nf >= 16 || (fastfail && nf >= 1) {
 			break
 		}
 	}
